@@ -411,3 +411,16 @@ def _ber_nested_choice_recursive(env, mod, t, v, codec):
                 if is_recursive_ref(env, cr.mod, c2.t):
                     return True
     return False
+
+
+
+@carve('der-set-extension-additions-not-in-tag-order', ['C03'])
+def _der_set_additions(env, mod, t, v, codec):
+    """DER SET with extension additions: only the root components are sorted by
+    tag, additions are appended in declaration order."""
+    if codec != 'der':
+        return False
+    for r in _constructed_nodes(env, mod, t):
+        if r.base.kind == 'SET' and flat_additions(r.base):
+            return True
+    return False
